@@ -483,6 +483,23 @@ def generate(rng, tier):
                 rho = make_rho(rng, names, avoid=(tmp,))
                 rho[o["tname"] if role == "tname" else role] = tmp
                 cases.append({"kind": "transform", "rho": rho, "orig": o})
+    # ... user ufuncs whose dummy names are spelled like real axes of the grid but bound to OTHER axes, with
+    # different widths on them; the dummies are renamed independently of the axes
+    found = 0
+    for _try in range(3000):
+        if found >= 8:
+            break
+        o = K11.gen_case(rng)
+        real_axes = {a for a, _ in o["ctor"]["coords"]}
+        crossed = any(d in real_axes and d != ax for arg, axs in zip(o["in_sig"], o["axis"]) for (d, _), ax in zip(arg, axs))
+        bws = [w for oo in (o["bound"], o["call"]) for w in (oo.get("bw") or [])]
+        if not crossed or len({tuple(w) for _, w in bws}) < 2 or o.get("kind"):
+            continue
+        names = ctor_names(o["ctor"]) + [d for a in o["args"] for d, _ in a["dims"]] + \
+            [d for a in o["in_sig"] + o["out_sig"] for d, _ in a]
+        dn = sorted({d for a in o["in_sig"] + o["out_sig"] for d, _ in a} | {d for d, _ in bws})
+        cases.append({"kind": "ufunc", "rho": make_rho(rng, names), "orig": o, "rho_dummy": make_rho(rng, dn, avoid=tuple(real_axes))})
+        found += 1
     # ... metric operations on grids whose axis names have several letters, one a repetition of the other
     for ax_names in (("lon", "lat"), ("Z", "ZZ"), ("ZZ", "Z"), ("ab", "ba"), ("X", "XX")):
         for axes_ in (["X"], ["Y"], ["X", "Y"]):
